@@ -7,3 +7,5 @@ command -v z3-new >/dev/null || { echo "z3-new missing"; exit 1; }
 python3-vt -c "import z3, cvc5; assert z3.get_version_string().startswith('5.'); print('z3', z3.get_version_string(), 'cvc5', cvc5.__version__)"
 test -x /venv/bin/python || { echo "/venv/bin/python missing"; exit 1; }
 python3-vt -m pyvc.selftest
+# Lean 4 + Mathlib: low-32-bit homomorphism lemmas for C14 (cold start about 3 minutes; a failure is reported, the thorough C14 check re-runs it)
+if command -v lean >/dev/null; then (lean lemmas/Trunc.lean && echo "lean lemmas ok") || echo "WARNING: lemmas/Trunc.lean did not check"; fi
